@@ -32,6 +32,7 @@ type frame struct {
 	panicVal  interface{}
 	visits    map[*ssa.BasicBlock]int
 	curPos    token.Pos
+	skipPhis  bool
 }
 
 func (fr *frame) get(key ssa.Value) Value {
@@ -256,6 +257,10 @@ func zeroResult(fn *ssa.Function) Value {
 }
 
 func (fr *frame) execPhis() {
+	if fr.skipPhis {
+		fr.skipPhis = false
+		return
+	}
 	var tmp []Value
 	var phis []*ssa.Phi
 	for _, instr := range fr.block.Instrs {
@@ -406,6 +411,13 @@ func (fr *frame) visit(instr ssa.Instruction) continuation {
 		storeInto(addr, fr.get(instr.Val))
 	case *ssa.If:
 		c := fr.get(instr.Cond).(*Term)
+		if !c.IsConst() {
+			if j := fr.tryMerge(instr, c); j != nil {
+				fr.jump(j)
+				fr.skipPhis = true
+				return kJump
+			}
+		}
 		succ := 1
 		if p.branch(c) {
 			succ = 0
